@@ -2,7 +2,7 @@ CONSTANTS
   Wrappers = {"vec", "option", "mapv", "mapk", "box", "array", "slice", "garg"}
   MaxChain = 3
   TypeCs = {"u64", "i64", "usize", "isize", "tuple2", "tuple1", "tuple3_nested"}
-  ItemCs = {"multi_tuple_struct", "multi_tuple_variant", "multi_tuple_struct_one_kept", "multi_tuple_struct_one_kept_ts", "multi_tuple_variant_one_kept", "flatten_field", "flatten_vfield", "flatten_field_sas", "flatten_vfield_sas", "flatten_field_merged", "flatten_field_second", "untagged_data_enum", "tag_without_content", "content_without_tag", "tag_on_unit_enum", "content_on_unit_enum", "tagged_enum_only_data_variant", "const_string", "const_float", "const_neg", "const_paren", "const_expr", "const_bool", "const_path", "const_cast", "const_not", "const_method", "const_block", "const_if"}
+  ItemCs = {"multi_tuple_struct", "multi_tuple_variant", "multi_tuple_struct_one_kept", "multi_tuple_struct_one_kept_ts", "multi_tuple_variant_one_kept", "flatten_field", "flatten_vfield", "flatten_field_sas", "flatten_vfield_sas", "flatten_field_merged", "flatten_field_second", "untagged_data_enum", "untagged_enum_struct_variant", "untagged_enum_struct_variant_fields_skipped", "untagged_enum_empty_struct_variant", "tag_without_content", "content_without_tag", "tag_on_unit_enum", "content_on_unit_enum", "tagged_enum_only_data_variant", "const_string", "const_float", "const_neg", "const_paren", "const_expr", "const_bool", "const_path", "const_cast", "const_not", "const_method", "const_block", "const_if"}
 INIT Init
 NEXT Next
 INVARIANT Emit
